@@ -577,7 +577,7 @@ def build(c):
     try:
         d0 = am.defect.Dislocation(c.ucell, c.C, b, xi, hkl, **c.kw)
     except (ValueError, IndexError, AssertionError) as e:
-        if c.ce and 'C must be isotropic elastic constants' in str(e):
+        if 'C must be isotropic elastic constants' in str(e):     # (also at magnitude 1: an elastically degenerate line direction, seed 7 of the sweeps)
             # the Stroh solver refused the medium (its self-checks are not independent of the magnitude of C: 2 media of 1500
             # at 1e3, none seen at 1) and the dispatcher fell through to the isotropic solver's refusal.  The solvers are C12's
             # subject ("that the solver accepts"): counted (max_share guard), not judged
